@@ -59,6 +59,8 @@ var originAtoms = func() []originAtom {
 		}
 	}
 	inv("prohibited", "null", "file:///somepath", "file://example.com")
+	// Punycode labels that decode to right-to-left script and violate the IDNA Bidi rule (RFC 5893): not "valid Punycode"
+	inv("", "https://1a.xn--9dbne9b.com", "https://*.xn--9dbne9b.1a.example.com", "https://xn--a-bicuf1d.com")
 	inv("", "https://www.résumé.com", "https://Example.com", "HTTPS://example.com", "https://user@example.com", "https://user:pw@example.com",
 		"https://example.com/", "https://example.com/path", "https://example.com?q=1", "https://example.com#f", " https://example.com", "https://example.com ",
 		"https://example.com:", "https://example.com:0", "https://example.com:65536", "https://example.com:123456", "https://example.com:080",
@@ -82,7 +84,7 @@ type nameAtom struct {
 }
 
 var methodAtomsL = []nameAtom{
-	{"*", ""}, {"GET", ""}, {"POST", ""}, {"HEAD", ""}, {"PUT", ""}, {"put", ""}, {"Put", ""}, {"DELETE", ""}, {"delete", ""}, {"PATCH", ""}, {"patch", ""},
+	{longMethod, ""}, {"*", ""}, {"GET", ""}, {"POST", ""}, {"HEAD", ""}, {"PUT", ""}, {"put", ""}, {"Put", ""}, {"DELETE", ""}, {"delete", ""}, {"PATCH", ""}, {"patch", ""},
 	{"PURGE", ""}, {"OPTIONS", ""}, {"options", ""}, {"Foo", ""}, {"QUERY", ""}, {"get", ""}, {"M-SEARCH", ""}, {"a!#$%&'*+-.^_`|~9", ""},
 	{"CONNECT", "forbidden"}, {"TRACE", "forbidden"}, {"TRACK", "forbidden"}, {"connect", "forbidden"}, {"Trace", "forbidden"}, {"tRaCk", "forbidden"},
 	{"", "invalid"}, {"GE T", "invalid"}, {"GET,POST", "invalid"}, {"résumé", "invalid"}, {"PO\x00ST", "invalid"}, {"(GET)", "invalid"}, {"GET/", "invalid"},
@@ -92,7 +94,7 @@ var methodAtomsL = []nameAtom{
 // ---- request-header atoms -------------------------------------------------
 
 var reqHdrAtomsL = []nameAtom{
-	{"*", ""}, {"Authorization", ""}, {"authorization", ""}, {"AUTHORIZATION", ""}, {"Content-Type", ""}, {"content-type", ""}, {"X-Foo", ""}, {"x-foo", ""},
+	{longHeader, ""}, {strings.ToLower(longHeader[:64]), ""}, {longHeader[:65], ""}, {"Proxy-" + longHeader, "forbidden"}, {"*", ""}, {"Authorization", ""}, {"authorization", ""}, {"AUTHORIZATION", ""}, {"Content-Type", ""}, {"content-type", ""}, {"X-Foo", ""}, {"x-foo", ""},
 	{"X-Bar", ""}, {"x-a", ""}, {"Accept", ""}, {"X-Requested-With", ""}, {"foo", ""}, {"Cache-Control", ""}, {"If-None-Match", ""}, {"x_under", ""}, {"Secx", ""}, {"proxy", ""},
 	{"Accept-Charset", "forbidden"}, {"accept-encoding", "forbidden"}, {"Access-Control-Request-Headers", "forbidden"}, {"access-control-request-method", "forbidden"},
 	{"Access-Control-Request-Private-Network", "forbidden"}, {"Connection", "forbidden"}, {"Content-Length", "forbidden"}, {"Cookie", "forbidden"}, {"cookie2", "forbidden"},
@@ -108,7 +110,7 @@ var reqHdrAtomsL = []nameAtom{
 // ---- response-header atoms ------------------------------------------------
 
 var resHdrAtomsL = []nameAtom{
-	{"*", ""}, {"X-Resp", ""}, {"x-resp", ""}, {"Content-Type", ""}, {"Cache-Control", ""}, {"X-Other", ""}, {"ETag", ""}, {"Content-Length", ""}, {"Location", ""},
+	{longHeader, ""}, {longHeader[:65], ""}, {"*", ""}, {"X-Resp", ""}, {"x-resp", ""}, {"Content-Type", ""}, {"Cache-Control", ""}, {"X-Other", ""}, {"ETag", ""}, {"Content-Length", ""}, {"Location", ""},
 	{"Expires", ""}, {"pragma", ""}, {"Last-Modified", ""}, {"content-language", ""}, {"X-B", ""}, {"Cookie", ""}, {"Authorization", ""},
 	{"Set-Cookie", "forbidden"}, {"set-cookie2", "forbidden"}, {"SET-COOKIE", "forbidden"}, {"Set-Cookie2", "forbidden"},
 	{"Origin", "prohibited"}, {"origin", "prohibited"}, {"Access-Control-Request-Method", "prohibited"}, {"access-control-request-headers", "prohibited"},
@@ -382,7 +384,7 @@ func genAtomCfg(t *rapid.T, mix atomMix) Cfg {
 		c = genValidAtomCfg(t)
 	}
 	fill := func() {
-		n := uniform(t, "norigins", 5)
+		n := listLen(t, "norigins", 0, 4)
 		if mix == mixOneViolation {
 			return
 		}
@@ -398,21 +400,21 @@ func genAtomCfg(t *rapid.T, mix atomMix) Cfg {
 			}
 		}
 		c.Methods, c.RequestHeaders, c.ResponseHeaders = nil, nil, nil
-		for i, n := 0, uniform(t, "nmethods", 5); i < n; i++ {
+		for i, n := 0, listLen(t, "nmethods", 0, 4); i < n; i++ {
 			if chance(t, "mstar", 10) {
 				c.Methods = append(c.Methods, "*")
 			} else {
 				c.Methods = append(c.Methods, Str(pickName(t, "m", methodAtomsL, chance(t, "mbad", badPct))))
 			}
 		}
-		for i, n := 0, uniform(t, "nreq", 6); i < n; i++ {
+		for i, n := 0, listLen(t, "nreq", 0, 5); i < n; i++ {
 			if chance(t, "hstar", 10) {
 				c.RequestHeaders = append(c.RequestHeaders, "*")
 			} else {
 				c.RequestHeaders = append(c.RequestHeaders, Str(pickName(t, "h", reqHdrAtomsL, chance(t, "hbad", badPct))))
 			}
 		}
-		for i, n := 0, uniform(t, "nres", 5); i < n; i++ {
+		for i, n := 0, listLen(t, "nres", 0, 4); i < n; i++ {
 			if chance(t, "rstar", 12) {
 				c.ResponseHeaders = append(c.ResponseHeaders, "*")
 			} else {
@@ -538,7 +540,7 @@ func genValidAtomCfg(t *rapid.T) Cfg {
 	c.TolPSL = chance(t, "tolpsl", 40)
 	pna := c.PNA || c.PNANoCORS
 	secureOnly := (c.Credentialed || pna) && !c.TolInsecure
-	n := intIn(t, "norigins", 1, 5)
+	n := listLen(t, "norigins", 1, 5)
 	for i := 0; i < n; i++ {
 		for {
 			a := pick(t, "oatom", originAtoms)
@@ -552,21 +554,21 @@ func genValidAtomCfg(t *rapid.T) Cfg {
 	if !c.Credentialed && !pna && chance(t, "star", 30) {
 		c.Origins = insertAt(t, c.Origins, "*")
 	}
-	for i, n := 0, uniform(t, "nmethods", 5); i < n; i++ {
+	for i, n := 0, listLen(t, "nmethods", 0, 4); i < n; i++ {
 		if chance(t, "mstar", 15) {
 			c.Methods = append(c.Methods, "*")
 		} else {
 			c.Methods = append(c.Methods, Str(pickName(t, "m", methodAtomsL, false)))
 		}
 	}
-	for i, n := 0, uniform(t, "nreq", 6); i < n; i++ {
+	for i, n := 0, listLen(t, "nreq", 0, 5); i < n; i++ {
 		if chance(t, "hstar", 15) {
 			c.RequestHeaders = append(c.RequestHeaders, "*")
 		} else {
 			c.RequestHeaders = append(c.RequestHeaders, Str(pickName(t, "h", reqHdrAtomsL, false)))
 		}
 	}
-	for i, n := 0, uniform(t, "nres", 5); i < n; i++ {
+	for i, n := 0, listLen(t, "nres", 0, 4); i < n; i++ {
 		if !c.Credentialed && chance(t, "rstar", 15) {
 			c.ResponseHeaders = append(c.ResponseHeaders, "*")
 		} else {
